@@ -16,7 +16,7 @@ from ..leanio import ModelError
 ID = "C17"
 LEVEL = "proof"
 THEOREMS = [
-    "load_perm", "loadData_perm", "loadClustered_perm", "kept_iff", "numbering_sorted",
+    "load_perm", "loadData_perm", "loadClustered_perm", "kept_iff", "load_ok_iff", "numbering_sorted",
     "numbering_sorted_clusters", "defaults", "major_lt_minor_rejected", "degenerate_rejected",
 ]
 BUDGET = {"quick": 100, "thorough": 600}
@@ -53,6 +53,7 @@ ASSUMPTIONS = [
     "assignment from chromosome positions switched off (assign_loss_prob = False)",
 ]
 SEARCH_BUDGET = 60
+MAX_JOBS = 8
 TOL = 1e-9
 
 COLS = ["mutation_id", "sample_id", "ref_counts", "alt_counts", "major_cn", "minor_cn", "normal_cn"]
@@ -216,10 +217,10 @@ def gen_intids(rnd):
 
 def cases(tier, rnd):
     out = []
-    n = 110 if tier == "quick" else 1400
+    n = 260 if tier == "quick" else 1400
     for _ in range(n):
         out.append(gen_table(rnd, tier))
-    for _ in range(6 if tier == "quick" else 60):
+    for _ in range(10 if tier == "quick" else 60):
         out.append(gen_table(rnd, tier, force="none_kept"))
     for _ in range(3 if tier == "quick" else 20):
         out.append(gen_intids(rnd))
@@ -368,7 +369,11 @@ def oracle_check(ctx, case, rows, real, exp, where, site_prefix="pyclone"):
     if "excluded" in exp:
         return True
     if kind == "exc":
-        ctx.oracle_fail(case, f"{where}: valid table rejected with {rest[0]}", "pyclone.load_pyclone_data", "crash-" + rest[0], rest)
+        if not exp["kept"] and rest[0] == "ValueError":  # the repaired empty-frame crash (fix 5a052d9), kept as a regression signature
+            ctx.oracle_fail(case, f"{where}: table in which no mutation survives the filters is rejected with ValueError instead of loading zero data points",
+                            "pyclone._process_required_cols_on_df", "none-kept-crash", rest)
+        else:
+            ctx.oracle_fail(case, f"{where}: valid table rejected with {rest[0]}", "pyclone.load_pyclone_data", "crash-" + rest[0], rest)
         return False
     snap = rest[0]
     names = key(exp["kept"].keys())
